@@ -14,9 +14,15 @@ import (
 	"encoding/binary"
 	"encoding/json"
 	"fmt"
+	"io"
+	"log/slog"
+	"net"
+	"os"
 	"reflect"
 	"strings"
+	"sync"
 	"testing"
+	"time"
 
 	"github.com/twmb/franz-go/pkg/kmsg"
 
@@ -230,7 +236,7 @@ func TestVerifC11Proxy(t *testing.T) {
 		if err := json.Unmarshal(rc, &cs); err != nil {
 			t.Fatalf("bad replay: %v", err)
 		}
-		if cs.Path == "" { // a broker-side replay: nothing to do here
+		if cs.Path == "" || cs.Path == "concurrent" { // a broker-side or concurrent-stream replay: nothing to do here
 			rep.Cases("C11_proxy", "From KS Require Import lib.Base gen.ApiTables model.ApiVersions corr.ApiVersionsCorr.", "case", "check_case", coq[:1], jsons[:1])
 			rep.WriteAs("C11_proxy")
 			return
@@ -276,6 +282,267 @@ func TestVerifC11Proxy(t *testing.T) {
 	}
 	rep.Cases("C11_proxy", "From KS Require Import lib.Base gen.ApiTables model.ApiVersions corr.ApiVersionsCorr.", "case", "check_case", coq, jsons)
 	rep.WriteAs("C11_proxy")
+	if len(rep.Failures) > 0 {
+		t.Logf("oracle failures: %s", strings.TrimSpace(rep.Failures[0].What))
+	}
+}
+
+// ---------------------------------------------------------------- concurrent stream
+//
+// The Coq theorems and the sequential stream above are about the per-request function.
+// State shared between requests (a cached response message, a reused buffer, ...) can only
+// go wrong when requests overlap, so this stream drives several client connections at once
+// through the real proxy.handleConnection over net.Pipe: requests of the same API at
+// DIFFERENT versions (and mixed APIs) simultaneously, for a bounded number of rounds. Every
+// reply is checked exactly like a sequential one (correlation id, header shape, kmsg decode at
+// the request's version, canonical re-encode) and, the served APIs being deterministic over a
+// static store, must equal byte for byte the reply the same request got sequentially.
+
+type c11pReq struct {
+	Key     int16  `json:"key"`
+	Version int16  `json:"version"`
+	Body    []byte `json:"body"`
+}
+
+type c11pConcCase struct {
+	Path       string    `json:"path"` // "concurrent"
+	Requests   []c11pReq `json:"requests"`
+	Goroutines int       `json:"goroutines"`
+	Rounds     int       `json:"rounds"`
+}
+
+func c11pFramePayload(rq c11pReq, corr int32) []byte {
+	out := make([]byte, 8)
+	binary.BigEndian.PutUint16(out[0:], uint16(rq.Key))
+	binary.BigEndian.PutUint16(out[2:], uint16(rq.Version))
+	binary.BigEndian.PutUint32(out[4:], uint32(corr))
+	out = append(out, 0, 5, 'v', 'e', 'r', 'i', 'f')
+	k := kmsg.RequestForKey(rq.Key)
+	k.SetVersion(rq.Version)
+	if k.IsFlexible() {
+		out = append(out, 0)
+	}
+	return append(out, rq.Body...)
+}
+
+// c11pCheckReply: the per-reply oracle shared by the sequential reference and the concurrent stream.
+func c11pCheckReply(rq c11pReq, corr int32, reply []byte) (string, string) {
+	name := kmsg.NameForKey(rq.Key)
+	if len(reply) < 4 {
+		return "concurrent-short:" + name, fmt.Sprintf("%s v%d: reply of %d bytes", name, rq.Version, len(reply))
+	}
+	if got := int32(binary.BigEndian.Uint32(reply)); got != corr {
+		return "concurrent-correlation:" + name, fmt.Sprintf("%s v%d: reply carries correlation id %#x, request had %#x", name, rq.Version, got, corr)
+	}
+	kresp := kmsg.ResponseForKey(rq.Key)
+	kresp.SetVersion(rq.Version)
+	flex := kresp.IsFlexible() && rq.Key != 18
+	dec, exact := c11pDecode(rq.Key, rq.Version, reply, flex)
+	if !dec || !exact {
+		// which other version does the body belong to?
+		other := "none of 0..MaxVersion"
+		for v := int16(0); v <= kmsg.RequestForKey(rq.Key).MaxVersion(); v++ {
+			kr := kmsg.ResponseForKey(rq.Key)
+			kr.SetVersion(v)
+			if d, e := c11pDecode(rq.Key, v, reply, kr.IsFlexible() && rq.Key != 18); d && e && v != rq.Version {
+				other = fmt.Sprintf("version %d", v)
+				break
+			}
+		}
+		return "concurrent-corrupt:" + name, fmt.Sprintf("%s v%d: reply behind the request's correlation id does not decode canonically at version %d (decodes=%v, re-encodes identically=%v); its body is a canonical encoding at %s; reply bytes %x", name, rq.Version, rq.Version, dec, exact, other, c11pCut(reply))
+	}
+	return "", ""
+}
+
+func c11pCut(b []byte) []byte {
+	if len(b) > 96 {
+		return b[:96]
+	}
+	return b
+}
+
+// c11pClient: one client connection served by the real handleConnection.
+type c11pClient struct {
+	conn net.Conn
+	done chan struct{}
+}
+
+func c11pDial(p *proxy) *c11pClient {
+	srv, cli := net.Pipe()
+	c := &c11pClient{conn: cli, done: make(chan struct{})}
+	go func() {
+		defer close(c.done)
+		p.handleConnection(context.Background(), srv)
+	}()
+	return c
+}
+
+func (c *c11pClient) roundTrip(rq c11pReq, corr int32) ([]byte, error) {
+	_ = c.conn.SetDeadline(time.Now().Add(10 * time.Second))
+	if err := protocol.WriteFrame(c.conn, c11pFramePayload(rq, corr)); err != nil {
+		return nil, err
+	}
+	f, err := protocol.ReadFrame(c.conn)
+	if err != nil {
+		return nil, err
+	}
+	return f.Payload, nil
+}
+
+func (c *c11pClient) close() {
+	_ = c.conn.Close()
+	select {
+	case <-c.done:
+	case <-time.After(5 * time.Second):
+	}
+}
+
+type c11pConcFailure struct {
+	key, what string
+	req       c11pReq
+}
+
+// c11pRunConcurrent returns the first failure (or nil) and the number of replies checked.
+func c11pRunConcurrent(p *proxy, cs c11pConcCase) (*c11pConcFailure, int) {
+	// sequential reference, itself checked
+	ref := make([][]byte, len(cs.Requests))
+	seq := c11pDial(p)
+	for i, rq := range cs.Requests {
+		reply, err := seq.roundTrip(rq, 0x5e9e0000+int32(i))
+		if err != nil {
+			seq.close()
+			return &c11pConcFailure{"concurrent-no-reply:" + kmsg.NameForKey(rq.Key), fmt.Sprintf("%s v%d: no reply on a sequential connection: %v", kmsg.NameForKey(rq.Key), rq.Version, err), rq}, i
+		}
+		if k, w := c11pCheckReply(rq, 0x5e9e0000+int32(i), reply); k != "" {
+			seq.close()
+			return &c11pConcFailure{k, "sequential reference: " + w, rq}, i
+		}
+		ref[i] = append([]byte{}, reply[4:]...)
+	}
+	seq.close()
+
+	var mu sync.Mutex
+	var first *c11pConcFailure
+	checked := 0
+	start := make(chan struct{})
+	var wg sync.WaitGroup
+	for g := 0; g < cs.Goroutines; g++ {
+		wg.Add(1)
+		go func(g int) {
+			defer wg.Done()
+			c := c11pDial(p)
+			defer c.close()
+			<-start
+			n := 0
+			for round := 0; round < cs.Rounds; round++ {
+				i := (g + round*(g%3+1)) % len(cs.Requests) // goroutines walk the request list at different strides
+				rq := cs.Requests[i]
+				corr := int32(g+1)<<20 | int32(round)
+				reply, err := c.roundTrip(rq, corr)
+				var k, w string
+				if err != nil {
+					k, w = "concurrent-no-reply:"+kmsg.NameForKey(rq.Key), fmt.Sprintf("%s v%d: no reply while %d connections were active: %v", kmsg.NameForKey(rq.Key), rq.Version, cs.Goroutines, err)
+				} else if k, w = c11pCheckReply(rq, corr, reply); k == "" && !bytes.Equal(reply[4:], ref[i]) {
+					k, w = "concurrent-differs:"+kmsg.NameForKey(rq.Key), fmt.Sprintf("%s v%d: reply under concurrency differs from the reply to the same request sent alone: %x vs %x", kmsg.NameForKey(rq.Key), rq.Version, c11pCut(reply[4:]), c11pCut(ref[i]))
+				}
+				n++
+				if k != "" {
+					mu.Lock()
+					if first == nil {
+						first = &c11pConcFailure{k, w, rq}
+					}
+					mu.Unlock()
+					break
+				}
+				mu.Lock()
+				stop := first != nil
+				mu.Unlock()
+				if stop {
+					break
+				}
+			}
+			mu.Lock()
+			checked += n
+			mu.Unlock()
+		}(g)
+	}
+	close(start)
+	wg.Wait()
+	return first, checked
+}
+
+func c11pProxyForConcurrency() *proxy {
+	topic := "orders"
+	store := metadata.NewInMemoryStore(metadata.ClusterMetadata{
+		Brokers: []protocol.MetadataBroker{{NodeID: 1, Host: "b1", Port: 9092}},
+		Topics:  []protocol.MetadataTopic{{Topic: &topic, Partitions: []protocol.MetadataPartition{{Partition: 0, Leader: 1, Replicas: []int32{1}, ISR: []int32{1}}}}},
+	})
+	p := &proxy{apiVersions: generateProxyApiVersions(), store: store, advertisedHost: "proxy.local", advertisedPort: 9092,
+		brokerAddrs: map[string]string{}, topicNames: map[[16]byte]string{}, logger: slog.New(slog.NewTextHandler(io.Discard, nil)), dialTimeout: time.Second}
+	p.setReady(true)
+	return p
+}
+
+func TestVerifC11ProxyConcurrent(t *testing.T) {
+	name := "C11_proxy_conc" + os.Getenv("VERIF_C11_TAG")
+	rep := vNewReport("C11", "concurrent stream: several client connections at once through the real proxy.handleConnection (net.Pipe), requests of the same API at different versions and mixed APIs (ApiVersions, Metadata, FindCoordinator — the APIs the proxy answers itself) simultaneously for a bounded number of rounds; each reply checked like a sequential one and compared byte for byte with the reply the same request got alone")
+	def := func(key, ver int16) c11pReq {
+		rq := kmsg.RequestForKey(key)
+		rq.SetVersion(ver)
+		return c11pReq{Key: key, Version: ver, Body: rq.AppendTo(nil)}
+	}
+	var cases []c11pConcCase
+	if rc := vReplayCase(); rc != nil {
+		var cs c11pConcCase
+		if err := json.Unmarshal(rc, &cs); err != nil || cs.Path != "concurrent" {
+			rep.WriteAs(name)
+			return
+		}
+		cases = []c11pConcCase{cs}
+	} else {
+		rounds := vN(6000, 40000)
+		var apiv, mixed []c11pReq
+		for _, e := range generateProxyApiVersions() {
+			for v := e.MinVersion; v <= e.MaxVersion && v >= 0; v++ {
+				switch e.ApiKey {
+				case 18:
+					apiv = append(apiv, def(18, v))
+					mixed = append(mixed, def(18, v))
+				case 3, 10:
+					mixed = append(mixed, def(e.ApiKey, v))
+				}
+			}
+		}
+		for v := int16(0); v <= 4; v++ { // FindCoordinator is answered locally at any version
+			mixed = append(mixed, def(10, v))
+		}
+		cases = []c11pConcCase{
+			{Path: "concurrent", Requests: apiv, Goroutines: 8, Rounds: rounds},
+			{Path: "concurrent", Requests: mixed, Goroutines: 8, Rounds: rounds / 3},
+		}
+	}
+	for _, cs := range cases {
+		p := c11pProxyForConcurrency()
+		f, n := c11pRunConcurrent(p, cs)
+		rep.Evaluations += n
+		rep.Hist("proxy-concurrent-replies")
+		rep.Histogram["proxy-concurrent-replies"] += n - 1
+		if f != nil {
+			// shrink: the failing request plus one request of the same API at another version, two connections
+			shr := cs
+			for _, other := range cs.Requests {
+				if other.Key == f.req.Key && other.Version != f.req.Version {
+					cand := c11pConcCase{Path: "concurrent", Requests: []c11pReq{f.req, other}, Goroutines: 2, Rounds: cs.Rounds * 4}
+					if f2, _ := c11pRunConcurrent(c11pProxyForConcurrency(), cand); f2 != nil && f2.key == f.key {
+						shr, f = cand, f2
+						break
+					}
+				}
+			}
+			rep.Fail("concurrent", f.key, f.what, shr)
+		}
+	}
+	rep.WriteAs(name)
 	if len(rep.Failures) > 0 {
 		t.Logf("oracle failures: %s", strings.TrimSpace(rep.Failures[0].What))
 	}
